@@ -368,6 +368,20 @@ def r20_6(ctx):
     ctx.check(okg, cfgp.fq, short(gens[0]) if gens else "?", cfgp.where, "config lists every entry of self.styles (no filter)",
               "Theme.config does not emit every (name, style) of self.styles (filtered or different source): entries such as null styles are missing from the text, so reading it back gives a theme with different styles")
     ff = th.method("from_file")
+    # the theme is built from the parsed styles AND the caller's inherit flag (else inherit=False themes come back with the defaults merged in)
+    from ..astutil import inline as _inl2, single_defs as _sdf2
+    ctor = [c for c in walk_local(ff.node) if isinstance(c, ast.Call) and norm(c.func) in ("Theme", "cls")]
+    okf = len(ctor) == 1
+    if okf:
+        c0 = ctor[0]
+        inh = kwarg(c0, "inherit") or (c0.args[1] if len(c0.args) > 1 else None)
+        okf = inh is not None and norm(inh) == "inherit"
+    ctx.check(okf, ff.fq, short(ctor[0]) if ctor else "Theme(...)", ff.where, "from_file forwards its inherit argument to the Theme it builds", "Theme.from_file does not forward `inherit` to the Theme constructor: a theme written with inherit=False reads back with all default styles merged in")
+    rd_ = th.method("read")
+    if rd_ is not None:
+        calls_ = [c for c in walk_local(rd_.node) if isinstance(c, ast.Call) and norm(c.func).endswith("from_file")]
+        okr = len(calls_) == 1 and ((kwarg(calls_[0], "inherit") is not None and norm(kwarg(calls_[0], "inherit")) == "inherit") or (len(calls_[0].args) > 2 and norm(calls_[0].args[2]) == "inherit"))
+        ctx.check(okr, rd_.fq, short(calls_[0]) if calls_ else "from_file(...)", rd_.where, "Theme.read forwards inherit to from_file", "Theme.read does not forward `inherit` to from_file")
     src = norm(ff.node)
     ctx.check("Style.parse(value)" in src and "config.items('styles')" in src, ff.fq, "from_file", ff.where, "from_file parses every value of [styles] with Style.parse", "Theme.from_file no longer parses the [styles] values with Style.parse")
 
